@@ -31,17 +31,20 @@ def run(tier, seed, which="C08"):
                 s = gen.rand_seq(rng, alpha, L)
                 if rng.random() < 0.2:
                     s = gen.case_mask(rng, s, 0.5)
-                # admissible types: clear compositions use the typed variants, ambiguous ones only "undefined"
-                if isprot and cname in ("uniform", "bzx", "low", "allW"):
+                # admissible types are decided on the string itself, by the premises of C13: typed protein runs only if at least a
+                # quarter of the letters occur only in proteins, typed nucleotide runs only if every letter is one of ACGTUN;
+                # everything else runs with the undefined type (kalign's own detection picks the kind)
+                up = s.upper()
+                if sum(c in "EFILPQ" for c in up) * 4 >= len(up) and "U" not in up:
                     tys = [3, 4, 5]
-                elif not isprot and cname in ("uniform", "allA", "at", "allN"):
+                elif all(c in "ACGTUN" for c in up):
                     tys = [0, 1, 2, 5]
                 else:
                     tys = [5]
                 add("%s_L%d_k%d" % (cname, L, k), s, k, rng.choice(tys), rng.choice([1, 2, 4, 16]))
                 i += 1
     # many copies of a single-letter string: the regime in which gap costs and substitution scores scale with the group sizes
-    for cname, ch, tys in (("allX", "X", [3, 5]), ("allN", "N", [0, 2, 5]), ("allB", "B", [5]), ("allA", "A", [0, 1, 2, 5]), ("allW", "W", [3, 4, 5])):
+    for cname, ch, tys in (("allX", "X", [5]), ("allN", "N", [0, 0, 2, 5]), ("allB", "B", [5]), ("allA", "A", [0, 1, 2, 5]), ("allW", "W", [5]), ("allL", "L", [3, 4, 5])):
         for k, L in ([(300, 40), (500, 12)] if tier == "quick" else [(258, 700), (300, 40), (400, 10), (500, 5), (500, 60), (1000, 20)]):
             add("%s_many_L%d_k%d" % (cname, L, k), ch * L, k, rng.choice(tys), rng.choice([1, 4, 16]))
     V.sample(dict(group=groups[0]["gid"], seq=groups[0]["members"][0]["seqs"][0][:80], copies=len(groups[0]["members"][0]["seqs"])))
